@@ -511,10 +511,21 @@ class SrcModel(object):
             self.src.append("\\makeatother ")
         else:
             self.src.append("\\catcode`\\%s=%d\\relax " % (c, code))
+        old = self.cat[c]
         self._set_local(("c", c), code)
         self.features.add("assign:catcode")
         if self.level:
             self.features.add("catcode-inside-group")
+        if nd.get("tight") and old not in (9, 11) and old != code and self.frozen is None:
+            # The character whose category has just changed follows the control word directly.  The
+            # control word ended at it under the OLD table (old category is not letter/ignored), but
+            # TeX classifies a character when it reads it as a token, i.e. under the NEW table.
+            # (Not inside a macro argument, whose characters were all classified when it was scanned.)
+            self.src[-1] = self.src[-1][:-1]
+            if self._n_cprobe({"c": c}):
+                self.features.add("changed-char-right-after-control-word")
+            else:
+                self.src[-1] += " "
         return True
 
     def _n_ctr(self, nd):
